@@ -169,6 +169,17 @@ func (p *wkbParser) parseGeomRoot(gtype GeometryType, ctype CoordinatesType) (Ge
 	}
 }
 
+// checkCount checks that n elements, each of which occupies at least
+// minElemSize bytes, could fit in the remaining input. It is used to validate
+// element counts before they are used to size allocations, so that a corrupt
+// count in a short input cannot cause a huge allocation.
+func (p *wkbParser) checkCount(n uint32, minElemSize int) error {
+	if uint64(n)*uint64(minElemSize) > uint64(len(p.body)) {
+		return wkbSyntaxError{"unexpected EOF"}
+	}
+	return nil
+}
+
 func (p *wkbParser) parseFloat64() (float64, error) {
 	if len(p.body) < 8 {
 		return 0, wkbSyntaxError{"unexpected EOF"}
@@ -225,11 +236,10 @@ func (p *wkbParser) parseLineString(ctype CoordinatesType) (LineString, error) {
 	if err != nil {
 		return LineString{}, err
 	}
-	floats := make([]float64, int(n)*ctype.Dimension())
-
-	if len(p.body) < 8*len(floats) {
-		return LineString{}, wkbSyntaxError{"unexpected EOF"}
+	if err := p.checkCount(n, 8*ctype.Dimension()); err != nil {
+		return LineString{}, err
 	}
+	floats := make([]float64, int(n)*ctype.Dimension())
 
 	var seqData []byte
 	if p.no {
@@ -274,6 +284,9 @@ func (p *wkbParser) parsePolygon(ctype CoordinatesType) (Polygon, error) {
 	if n == 0 {
 		return Polygon{}.ForceCoordinatesType(ctype), nil
 	}
+	if err := p.checkCount(n, 4); err != nil {
+		return Polygon{}, err
+	}
 	rings := make([]LineString, n)
 	for i := range rings {
 		rings[i], err = p.parseLineString(ctype)
@@ -291,6 +304,10 @@ func (p *wkbParser) parseMultiPoint(ctype CoordinatesType) (MultiPoint, error) {
 	}
 	if n == 0 {
 		return MultiPoint{}.ForceCoordinatesType(ctype), nil
+	}
+	// Each child has at least a byte order and a geometry type.
+	if err := p.checkCount(n, 5); err != nil {
+		return MultiPoint{}, err
 	}
 	pts := make([]Point, n)
 	for i := uint32(0); i < n; i++ {
@@ -314,6 +331,10 @@ func (p *wkbParser) parseMultiLineString(ctype CoordinatesType) (MultiLineString
 	if n == 0 {
 		return MultiLineString{}.ForceCoordinatesType(ctype), nil
 	}
+	// Each child has at least a byte order and a geometry type.
+	if err := p.checkCount(n, 5); err != nil {
+		return MultiLineString{}, err
+	}
 	lss := make([]LineString, n)
 	for i := uint32(0); i < n; i++ {
 		geom, err := p.inner()
@@ -336,6 +357,10 @@ func (p *wkbParser) parseMultiPolygon(ctype CoordinatesType) (MultiPolygon, erro
 	if n == 0 {
 		return MultiPolygon{}.ForceCoordinatesType(ctype), nil
 	}
+	// Each child has at least a byte order and a geometry type.
+	if err := p.checkCount(n, 5); err != nil {
+		return MultiPolygon{}, err
+	}
 	polys := make([]Polygon, n)
 	for i := uint32(0); i < n; i++ {
 		geom, err := p.inner()
@@ -357,6 +382,10 @@ func (p *wkbParser) parseGeometryCollection(ctype CoordinatesType) (GeometryColl
 	}
 	if n == 0 {
 		return GeometryCollection{}.ForceCoordinatesType(ctype), nil
+	}
+	// Each child has at least a byte order and a geometry type.
+	if err := p.checkCount(n, 5); err != nil {
+		return GeometryCollection{}, err
 	}
 	geoms := make([]Geometry, n)
 	for i := uint32(0); i < n; i++ {
